@@ -5,7 +5,7 @@ META = dict(_M)
 CLASSES = ["contracts.C13_all:CompositeSystemCaches", "contracts.C13_all:LossObjectReuse", "contracts.C13_all:AlgorithmObjectReuse",
            "contracts.C13_all:OperatorFrames", "contracts.C13_all:BasisImmutable", "contracts.C13_all:SettingsRoundTrip",
            "contracts.C13_all:EqProjectionVarFrame", "contracts.C13_all:IneqProjectionVarFrame", "contracts.C13_all:EqProjectionFrame",
-           "contracts.C13_all:IneqProjectionFrame", "contracts.C13_all:PhysicalProjectionFrame", "contracts.C13_all:EstimatorSequenceNoCarryOver", "contracts.C13_all:TensorComposeOperands", "contracts.C13_all:EstimatorObjectReuse", "contracts.C13_all:ExperimentCopyIndependent", "contracts.C13_all:MProcessCopyIndependent"]
+           "contracts.C13_all:IneqProjectionFrame", "contracts.C13_all:PhysicalProjectionFrame", "contracts.C13_all:EstimatorSequenceNoCarryOver", "contracts.C13_all:TensorComposeOperands", "contracts.C13_all:EstimatorObjectReuse", "contracts.C13_all:ExperimentCopyIndependent", "contracts.C13_all:MProcessCopyIndependent", "contracts.C13_all:ReplaceProbDistFrame"]
 
 
 def jobs(tier, seed):
